@@ -331,6 +331,12 @@ def check(ctx):
                 for d_ in reaching_assignments(prog, valid, t_.id, r):
                     if isinstance(d_, (ast.ListComp, ast.SetComp)) and any(isinstance(c_, ast.Compare) and any(isinstance(o_, ast.NotIn) for o_ in c_.ops) for g_ in d_.generators for i_ in g_.ifs for c_ in ast.walk(i_)):
                         okr = True
+    # the membership test is made on the key as given: a transformed key (lower-cased, stripped, ...) accepts names that no
+    # file defines
+    for c_ in ast.walk(valid.node):
+        if isinstance(c_, ast.Compare) and len(c_.ops) == 1 and isinstance(c_.ops[0], (ast.NotIn, ast.In)) and not isinstance(c_.left, (ast.Name, ast.Constant)):
+            if any(isinstance(n_, ast.Call) for n_ in ast.walk(c_.left)):
+                ctx.fail(valid, c_, f"the option name is tested for membership after a transformation ({canon(c_.left)[:50]}): a name that differs from a defined option (e.g. in letter case) is accepted and silently has no effect", construct=f"membership test on transformed key {canon(c_.left)[:40]}")
     ctx.check(okr, valid, raises[0] if raises else valid.node, "a key absent from the files raises ValueError", "validate_option_names no longer raises ValueError for a key that no option file defines", construct="validate raise")
     it = [n for n in ast.walk(valid.node) if isinstance(n, ast.For) and canon(n.iter) in ("self.keys()", "self", "self.items()")]
     # ... or a comprehension over all keys whose (non-empty) result raises
